@@ -185,22 +185,31 @@ fn simpler_num(num: &str) -> Option<String> {
         .find(|c| (c.len(), c.as_str()) < (num.len(), num))
 }
 
+/// The same entry sequence (model load order) in one file; `None` when the include tree
+/// does not load in the model.
+pub fn inline_world(w: &World) -> Option<World> {
+    let (flat, fail) = crate::model::flatten(w);
+    if fail.is_some() {
+        return None;
+    }
+    let mut f = FileSpec::new(&w.files[0].path);
+    f.crlf = w.files[0].crlf;
+    for fr in &flat {
+        f.push(w.files[fr.file].items[fr.item].entry.clone());
+    }
+    Some(World {
+        files: vec![f],
+        extra: w.extra.clone(),
+    })
+}
+
 /// Candidate smaller worlds: drop files, entries, postings, decorations; simplify numbers.
 pub fn shrink_world(w: &World) -> Vec<World> {
     let mut out = Vec::new();
     // inline everything into one file (keeps model order)
     if w.files.len() > 1 {
-        let (flat, fail) = crate::model::flatten(w);
-        if fail.is_none() {
-            let mut f = FileSpec::new(&w.files[0].path);
-            f.crlf = w.files[0].crlf;
-            for fr in &flat {
-                f.push(w.files[fr.file].items[fr.item].entry.clone());
-            }
-            out.push(World {
-                files: vec![f],
-                extra: w.extra.clone(),
-            });
+        if let Some(x) = inline_world(w) {
+            out.push(x);
         }
     }
     // drop extra files
